@@ -3,7 +3,7 @@
 From Coq Require Import ZArith NArith List Bool Permutation Reals.
 From QP Require Import Cx Apply Gates.
 From QP Require Import Asum.
-From QPM Require Import Pauli CompBasis Measure Grouping Reconstruct BitwiseGrouping Expect.
+From QPM Require Import Pauli CompBasis Measure Grouping Reconstruct BitwiseGrouping Expect Estimate.
 From QPG Require Import measrot.
 Import ListNotations.
 
@@ -103,3 +103,13 @@ Qed.
 Theorem eigenvalue_sign_is_the_reconstructor_value :
   forall l bits, NoDup (keys l) -> zsign l (fun i => N.testbit bits (N.of_nat i)) = RtoC (IZR (reconstruct l bits)).
 Proof. exact zsign_is_the_reconstructor_value. Qed.
+
+(* CachedMeasurementFactory: the cache is keyed by the CONTENT of the operator (frozenset of (label, coefficient) pairs; a
+   collection of labels is first made an operator with coefficients 1); a hit returns the stored groups, a miss calls the
+   wrapped factory, stores and returns.  After any history of earlier calls the result for content k is factory(k) - the
+   grouping and measurement theorems above therefore hold for the cached wrapper as well. *)
+Theorem cached_measurement_factory_returns_the_factory_result :
+  forall (K B : Type) (keqb : K -> K -> bool), (forall a b, keqb a b = true <-> a = b) ->
+  forall (factory : K -> B) (history : list K) (k : K),
+  fst (convert K B keqb factory (fold_left (fun c k' => snd (convert K B keqb factory c k')) history []) k) = factory k.
+Proof. intros. apply cache_returns_requested_content; auto. Qed.
